@@ -15,6 +15,8 @@ import vlib
 from vlib import log
 
 LEVEL = "model_checking"
+# VERIF_UNSTEER=F29,F31 ./check ...: switch the steering around the named recorded findings off (to test a candidate repair)
+UNSTEER = ["--unsteer", os.environ["VERIF_UNSTEER"]] if os.environ.get("VERIF_UNSTEER") else []
 TERMINATED = 2147483647
 UIDX = 5  # abstract documents of the stripe index (set to the universe of the generated programs)
 
@@ -349,7 +351,7 @@ def replay_generated(ctx):
     cp = ctx.path("gen_cases.ndjson")
     vlib.write_ndjson(cp, list(groups.values()))
     tp = ctx.path("gen_trace.ndjson")
-    vlib.run_bin("docset_driver", ["cases", "--in", cp, "--out", tp], timeout=900, mem_gb=12)
+    vlib.run_bin("docset_driver", ["cases", "--in", cp, "--out", tp] + UNSTEER, timeout=900, mem_gb=12)
     ev = vlib.read_ndjson(tp)
     n = validate(ctx, ev, "gen")
     ctx.sample({"kind": "TLC-enumerated call program, concretised on the stripe index and run on a real scorer",
@@ -361,7 +363,7 @@ def replay_generated(ctx):
 def random_programs(ctx, seed, docs, queries, progs, maxlen, label, extra=None):
     tp = ctx.path(f"{label}_trace.ndjson")
     vlib.run_bin("docset_driver", ["random", "--seed", seed, "--docs", docs, "--queries", queries, "--progs", progs,
-                                   "--maxlen", maxlen, "--out", tp] + (extra or []), timeout=900, mem_gb=12)
+                                   "--maxlen", maxlen, "--out", tp] + (extra or []) + UNSTEER, timeout=900, mem_gb=12)
     ev = vlib.read_ndjson(tp)
     n = validate(ctx, ev, label)
     log(f"[T] {label}: {queries} random query trees x segments x {progs} random programs, {n} programs accepted")
